@@ -4,7 +4,7 @@ from __future__ import annotations
 
 import random
 
-from harness.common import Ctx, byte_obligation, mi, read_scenario
+from harness.common import Ctx, byte_obligation, io_cases, mi, read_scenario
 from oracles import qcow2 as spec
 from oracles.mem import SymMem, SymOpaque
 from symx import core, files, layouts, loader, replay, stubs, summary
@@ -140,6 +140,7 @@ def read_task(prop, cfg, tier, seed):
             names=names, opaque=("backing",) if backing == "file" else (),
             opaque_sizes=dict(backing=lambda mo: mi(mo, bsize)) if bsize is not None else None,
             prefer=[l1_size <= 1 << 16], post_files=post_files)
+        ctx.scenario.wide = [l1_off >= 1 << 40, offset >= 1 << 40]
         if backing == "none":
             obj = m.QCow2(fh, data_file=dfh)
         else:
@@ -174,6 +175,9 @@ def read_task(prop, cfg, tier, seed):
                     sc.extra.append(core.sym_or(a + n2 <= off, a >= off + ln))
         sv = spec.guest_byte(offset + j, l1_off, l1_size, P, mem, dmem, bmem, bsize if bsize is not None else 0)
         bad = byte_obligation(res, j, explen, sv, extra=[obj.size != size], maxlen=length if cfg.get("tail") else None)
+        if cfg.get("io"):
+            per_cluster = P.l2n * P.es + 2 * cs + 512
+            bad += io_cases(fh.reads, 112 + 8 + 1023 + 8 * l1_size + touched * per_cluster + length, 4 + 4 * touched)
         if ctx.obligation(bad, "read differs from the guest-visible content"):
             ctx.witness()
 
